@@ -14,6 +14,8 @@ CLAIMED = {
              note="N<=2 (3 thorough); dr/dm, batched environments and torch outside the claim"),
  'C09': dict(design='C09', text="Take/Slice/Shuffle/Reservoir/Sort/Riffle/Where/Cache/Chunk/Params/Identity/Batch+Unbatch and the Environments shortcuts run on interaction sequences with symbolic features and symbolic parameters; randomised filters run on an arbitrary grid-valued uniform stream (so permutation and distinct-sample claims hold for every seed), libm by contract for Reservoir; outputs compared with explicit reference models (prefix, slice, stable sort, permutation, bounds) by z3.",
              note="N<=3..4; determinism in the seed on concrete seeds only; torch batches and Sort() on scalar contexts outside"),
+ 'C15': dict(design='C15', text="SafeLearner.predict/learn driven by a learner double answering consistently in each documented format (bare action, (action,prob), PMF, three dict hints; with/without kwargs; single, row-major, column-major, not-batch-capable) over 8 action kinds, 1-3 actions and batch sizes 1-3: action identity, stated probability, kwargs round-trip to learn and seeded PMF draws (symbolic PMFs, existential inverse-CDF oracle) decided by z3; plus reproducibility of PMF draws from the evaluator seed.",
+             note="bare dict actions in batches (ambiguous by design), one-action PMF columns, numpy/torch outside the claim"),
  'C13': dict(design='C13', text="Row pipelines built from the real HeadRows/EncodeRows/DropRows/LabelRows over list/tuple/LazyDense/dict/LazySparse bases run on symbolic integer cells with affine encoders; symbolic positions and row predicates fork in the solver; every access kind, in forward and reverse order, is compared with an eager list/dict model; plus the real ArffReader's lazy rows over a grid of missing-value placements.",
              note="width<=3 (4 thorough), 2 rows; EncodeCatRows, negative/out-of-range positions outside the claim"),
  'C17': dict(design='C17', text="Table.insert/index/where/groupby/copy run on symbolic integer cells; orderings are decided by z3 inside the real sorted/bisect calls; every operator, form, index column list and short operation history within the bounds is compared with a row-by-row list model. Bounded (rows<=3 quick, <=4 thorough), exhaustive within the bound.",
